@@ -6,6 +6,7 @@ of the state machine for each instance (several when the truncal cluster is tied
 forced); the real code is run on files written from the same instance and must land in one of them."""
 import contextlib
 import io
+import json
 import math
 import os
 import random
@@ -90,7 +91,7 @@ class _Stop(Exception):
 
 
 def write_files(inst, d, order_seed):
-    """Data file and cluster file for the instance, rows shuffled by order_seed (0 = generation order)."""
+    """Data file and cluster file for the instance, rows shuffled by order_seed (0 = generation order, 1 = reversed)."""
     nc, ns = inst["nc"], inst["ns"]
     o = inst["opt"]
     drows, crows = [], []
@@ -106,7 +107,10 @@ def write_files(inst, d, order_seed):
                     cr["outlier_prob"] = col_p(c) if c in o["colpos"] else 0.0
                 drows.append(dr)
                 crows.append(cr)
-    if order_seed:
+    if order_seed == 1:          # reversed: the last cluster's rows come first
+        drows.reverse()
+        crows.reverse()
+    elif order_seed:
         rs = random.Random(order_seed)
         rs.shuffle(drows)
         rs.shuffle(crows)
@@ -255,14 +259,34 @@ def borderline_instance(iid):
             "opt": {"assign": True, "userprov": False, "globpos": False, "hascol": False, "colpos": [], "haschrom": True}, "chrom_in": "cluster"}
 
 
-def bind(ck, prop, n_inst, orders, seed, want_spec=True, want_order=True, corrupt=None):
-    """Spec membership (every outcome of the real code is a final state of LossProb.tla for the instance) and, for
-    want_order, identical loaded data under every row order of the two files."""
+def borderline_instances3(first_id):
+    """Three clusters: the truncal one, a borderline one (exact p-value 1/99) and further tested clusters whose tests
+    consume the random stream before or after it depending on the order in which clusters are visited."""
+    out = []
+    for k, (ch3, ch4) in enumerate((((1, 2, 3, 4), None), ((2, 2, 3, 3, 4), None), ((1, 2, 3, 4), (5, 5, 6, 6)), ((6, 6, 6, 6), (1, 2, 3, 5, 6)))):
+        nc = 3 if ch4 is None else 4
+        chrom = {1: (1, 2, 1, 1), 2: (1, 1, 1, 1, 1, 2, 3, 5, 5, 6, 6, 6), 3: ch3}
+        prev = {(1, 1): 2, (1, 2): 1, (2, 1): 4, (2, 2): 4, (3, 1): 1, (3, 2): 3}
+        if ch4 is not None:
+            chrom[4] = ch4
+            prev[(4, 1)] = 0
+            prev[(4, 2)] = 2
+        out.append({"id": first_id + k, "nc": nc, "ns": 2, "prev": prev, "chrom": chrom, "seed": 20 + k,
+                    "opt": {"assign": True, "userprov": False, "globpos": False, "hascol": False, "colpos": [], "haschrom": True}, "chrom_in": ("cluster", "data")[k % 2]})
+    return out
+
+
+def bind(ck, prop, n_inst, orders, seed, want_spec=True, want_order=True, want_terms=True, corrupt=None):
+    """Verdicts: (want_terms) every clustered data point's prior terms are size x log p / size x log(1-p) for one of the
+    probabilities the input supplies; (want_order) identical loaded data under every row order of the two files.
+    Diagnostic (want_spec): the outcome is a final state of LossProb.tla for the instance, else MODEL-DRIFT - how options
+    resolve into p is documented behaviour the listed properties do not fix."""
     from . import kernels
     insts = gen_instances(seed, n_inst) + gen_instances(seed + 1, max(4, n_inst // 4), nc=4, ns=3)
     for k, inst in enumerate(insts):
         inst["id"] = k
     insts.append(borderline_instance(len(insts)))
+    insts.extend(borderline_instances3(len(insts)))
     finals, results = run_spec("lossprob_%s" % prop.lower(), insts)
     for r in results:
         ck.add_tlc("LossProb.tla on harness instances (final states as oracle)", r)
@@ -272,12 +296,12 @@ def bind(ck, prop, n_inst, orders, seed, want_spec=True, want_order=True, corrup
         outs = []
         for order in orders:
             try:
-                outs.append(run_impl(inst, d, order))
+                outs.append(run_impl(inst, d, order, seed=inst.get("seed", 11)))
             except Exception as ex:  # noqa
                 outs.append({"exception": "%s: %s" % (type(ex).__name__, ex)})
         return outs
 
-    n_rej = n_lost = n_tie = 0
+    n_rej = n_lost = n_tie = n_drift = 0
     for inst, outs in zip(insts, kernels.parallel_map(task, insts, chunksize=2)):
         fs = finals.get(inst["id"], [])
         rep = {"instance": {"prev": {"%d,%d" % k: v for k, v in inst["prev"].items()}, "chrom": {str(k): list(v) for k, v in inst["chrom"].items()},
@@ -294,11 +318,27 @@ def bind(ck, prop, n_inst, orders, seed, want_spec=True, want_order=True, corrup
             if "exception" in impl:
                 ck.violation("%s|cluster_prior|exception" % prop, "loading the clustered input raised %s" % impl["exception"], dict(rep, order=order))
                 continue
+            if impl.get("rejected"):
+                continue
+            if want_terms:
+                # the property: the two prior terms are size x log p and size x log(1-p) for ONE probability p that the input supplies
+                cands = {0.0, GLOBAL_P, DEFAULT_P, LOW_P, HIGH_P}
+                for (name, a, b), c in zip(impl["points"], range(1, inst["nc"] + 1)):
+                    size = len(inst["chrom"][c])
+                    ok = any((pv == 0 and a == 0 and b == 0) or (pv > 0 and abs(a - size * math.log(pv)) <= 1e-9 * abs(a) + 1e-12 and abs(b - size * math.log1p(-pv)) <= 1e-9 * abs(b) + 1e-12)
+                             for pv in cands | {col_p(c)})
+                    if not ok:
+                        ck.violation("%s|cluster_prior|terms" % prop, "cluster %s of %d mutations has prior terms (%r, %r): not size x log p, size x log(1-p) for any of the probabilities the "
+                                     "input supplies (global %s, column %s, low %s, high %s, default %s, 0)" % (name, size, a, b, GLOBAL_P, col_p(c), LOW_P, HIGH_P, DEFAULT_P),
+                                     dict(rep, order=order, impl=impl))
+                        break
             if want_spec:
                 ms = [matches(impl, f, inst) for f in fs]
                 if not any(m[0] for m in ms):
-                    ck.violation("%s|cluster_prior|not_a_specified_outcome" % prop, "cluster prior terms differ from LossProb.tla: %s" % "; ".join(sorted({m[1] for m in ms}))[:400],
-                                 dict(rep, order=order, impl=impl))
+                    n_drift += 1
+                    if n_drift <= 3:
+                        ck.model_drift("cluster prior resolution differs from LossProb.tla (options %s): %s" % (
+                            json.dumps(inst["opt"], sort_keys=True), "; ".join(sorted({m[1] for m in ms}))[:300]))
         if want_order:
             ref = outs[0]
             for order, impl in zip(orders[1:], outs[1:]):
@@ -311,6 +351,6 @@ def bind(ck, prop, n_inst, orders, seed, want_spec=True, want_order=True, corrup
                                      [(n, round(a, 6)) for n, a, _ in ref.get("points", [])], [(n, round(a, 6)) for n, a, _ in impl.get("points", [])]),
                                  dict(rep, order=order))
                     break
-    ck.extra["lossprob"] = {"instances": len(insts), "row_orders": len(orders), "rejected_option_sets": n_rej, "with_lost_cluster": n_lost, "with_truncal_tie": n_tie}
+    ck.extra["lossprob"] = {"instances": len(insts), "row_orders": len(orders), "rejected_option_sets": n_rej, "with_lost_cluster": n_lost, "with_truncal_tie": n_tie, "outcomes_outside_the_specification": n_drift}
     import shutil
     shutil.rmtree(d, ignore_errors=True)
